@@ -9,7 +9,7 @@ open P
 /-- The whole parser run of `compileWith`: the parsed body and the final parser state. -/
 def compileRun (tbl : List Rule) (source : String) (modulePath : String) : List Stmt × PState :=
   let toks := scanAll source
-  let fuel := 4 * toks.size + 64
+  let fuel := 16 * toks.size + 64
   let init : PState := { toks := toks, compilers := [Compiler.new .script ""], modulePath := modulePath }
   let prog : P (List Stmt) := do
     advance
@@ -35,7 +35,7 @@ theorem compileRun_inv (tbl : List Rule) (source : String) (m : String) :
   unfold compileRun
   dsimp only
   refine Pres.run ?_ _ ⟨rfl, by simp⟩
-  have ih := allPres m tbl (4 * (scanAll source).size + 64)
+  have ih := allPres m tbl (16 * (scanAll source).size + 64)
   pres_with (first | with_reducible apply ih.programLoop | pres_leaf)
 
 end Yarel.Spec
